@@ -46,6 +46,8 @@ var preludeFuns = map[string]preludeFun{
 	"decStr":     {"DecString", []string{"Int"}, "Str"},
 	"listN":      {"listN", []string{"(Array Addr Bool)"}, "Int"},
 	"listKey":    {"listKey", []string{"(Array Addr Bool)", "Int"}, "Addr"},
+	"listPos":    {"listPos", []string{"(Array Addr Bool)", "Addr"}, "Int"},
+	"ilistPos":   {"ilistPos", []string{"(Array Int Bool)", "Int"}, "Int"},
 	"ilistN":     {"ilistN", []string{"(Array Int Bool)"}, "Int"},
 	"ilistKey":   {"ilistKey", []string{"(Array Int Bool)", "Int"}, "Int"},
 	"abs":        {"absI", []string{"Int"}, "Int"},
@@ -159,6 +161,7 @@ var symRe = regexp.MustCompile(`\|[^|]*\|`)
 func (V *Verifier) buildQuery(o *Oblig, sums map[string]*SumFn, negate bool, level int) string {
 	ground := level >= 10 && level < 20 // level 1x: lemma level x on the ground part of the assumptions
 	focusMode := level >= 20              // level 2x: lemma level x, unfoldings and lemma instances only for the sums of the goal
+	udiv := level >= 30                   // level 3x: as 2x with quotients by symbolic divisors left uninterpreted (only their sign facts are kept)
 	level = level % 10
 	var body strings.Builder
 	for _, p := range o.PC {
@@ -312,6 +315,16 @@ func (V *Verifier) buildQuery(o *Oblig, sums map[string]*SumFn, negate bool, lev
 	for _, d := range skDecls {
 		b.WriteString(d + "\n")
 	}
+	if udiv {
+		// weaker hypotheses (an uninterpreted quotient satisfies fewer facts than div): sound, and keeps the query linear
+		b.WriteString("(declare-fun udivf (Int Int) Int)\n")
+		for _, u := range unfold {
+			b.WriteString(strings.ReplaceAll(u, "(div ", "(udivf ") + "\n")
+		}
+		b.WriteString(strings.ReplaceAll(text, "(div ", "(udivf "))
+		b.WriteString("(check-sat)\n")
+		return b.String()
+	}
 	for _, u := range unfold {
 		b.WriteString(u + "\n")
 	}
@@ -364,6 +377,10 @@ func sexpArgs(text, fn string) [][]string {
 	}
 }
 
+// solverSem bounds the number of solver processes running at once (one per core, two cores left to the generator):
+// without it the racing configurations of several obligations starve each other and time limits are hit for no reason.
+var solverSem = make(chan struct{}, 14)
+
 type solverCfg struct {
 	Name  string
 	Cmd   []string
@@ -394,6 +411,8 @@ func (V *Verifier) solverConfigs() []solverCfg {
 		z("z3-new/goal+mono", 22, ""),
 		c("cvc5/goal+mono", 22),
 		z("z3-new/goal+lemmas", 23, ""),
+		z("z3-new/goal+lemmas/udiv", 33, ""),
+		{"z3-4.8.12/goal+lemmas/udiv", []string{"z3", fmt.Sprintf("-T:%d", t)}, "", 33},
 		c("cvc5/goal+lemmas", 23),
 		z("z3-new/ground", 10, ""),
 		z("z3-new/ground+mono", 12, ""),
@@ -425,7 +444,7 @@ func (V *Verifier) discharge(o *Oblig, sums map[string]*SumFn, dir string) {
 	base := filepath.Join(dir, sanitize(o.Name))
 	all := V.solverConfigs()
 	hasQuant := strings.Contains(strings.Join(o.PC, " "), "(forall ")
-	var stageA, stageB []solverCfg
+	var stageA, stageB, stageC []solverCfg
 	for i, c := range all {
 		if o.Vacuity && c.Level != 0 {
 			continue
@@ -439,10 +458,16 @@ func (V *Verifier) discharge(o *Oblig, sums map[string]*SumFn, dir string) {
 		if c.Level >= 10 && len(sums) == 0 && c.Level != 10 {
 			continue
 		}
-		if i < 3 {
+		if c.Level >= 20 && len(sums) == 0 {
+			continue // goal-directed levels differ from level 0 only in the treatment of sums
+		}
+		switch {
+		case i < 3:
 			stageA = append(stageA, c)
-		} else {
+		case c.Level >= 20 || c.Name == "z3-4.8.12":
 			stageB = append(stageB, c)
+		default:
+			stageC = append(stageC, c)
 		}
 	}
 	type res struct {
@@ -485,11 +510,18 @@ func (V *Verifier) discharge(o *Oblig, sums map[string]*SumFn, dir string) {
 						}
 					}
 				}
+				select {
+				case solverSem <- struct{}{}:
+				case <-ctx.Done():
+					ch <- res{c.Name, "cancelled", 0}
+					return
+				}
 				cmd := exec.CommandContext(ctx, c.Cmd[0], append(args, f)...)
 				var out bytes.Buffer
 				cmd.Stdout, cmd.Stderr = &out, &out
 				st := time.Now()
 				cmd.Run()
+				<-solverSem
 				ch <- res{c.Name, out.String(), time.Since(st)}
 			}(i, c)
 		}
@@ -532,8 +564,9 @@ func (V *Verifier) discharge(o *Oblig, sums map[string]*SumFn, dir string) {
 			}
 		}
 	}
-	runStage(stageA, len(stageB) > 0)
+	runStage(stageA, len(stageB)+len(stageC) > 0)
 	runStage(stageB, false)
+	runStage(stageC, false)
 	o.Time = time.Since(t0).Seconds()
 	sort.Strings(details)
 	o.Detail = strings.Join(details, " ")
@@ -555,10 +588,11 @@ func (V *Verifier) discharge(o *Oblig, sums map[string]*SumFn, dir string) {
 		if V.keepQueries != "" && hasQuant {
 			os.WriteFile(filepath.Join(kd, sanitize(o.Name)+".ground.smt2"), []byte(query(13)), 0o644)
 		}
-		if V.keepQueries != "" && !o.ok() {
+		if V.keepQueries != "" && (!o.ok() || os.Getenv("GOVC_KEEP_ALL") != "") {
 			os.WriteFile(filepath.Join(kd, sanitize(o.Name)+".lemmas.smt2"), []byte(query(3)), 0o644)
 			os.WriteFile(filepath.Join(kd, sanitize(o.Name)+".goal.smt2"), []byte(query(23)), 0o644)
 			os.WriteFile(filepath.Join(kd, sanitize(o.Name)+".goalmono.smt2"), []byte(query(22)), 0o644)
+			os.WriteFile(filepath.Join(kd, sanitize(o.Name)+".udiv.smt2"), []byte(query(33)), 0o644)
 		}
 	}
 }
@@ -620,6 +654,7 @@ func sumRelationLemmas(text string, sums map[string]*SumFn, level int, focus str
 	}
 	sort.Strings(names)
 	var out []string
+	var pwLines [][2]string // the two bodies compared by each same-function PW instance (nested sums are compared in turn)
 	nsk := 0
 	// ground idxOf(...) terms: positions of keys in duplicate-free lists, candidates for single-position updates
 	var idxOfTerms []string
@@ -749,6 +784,23 @@ func sumRelationLemmas(text string, sums map[string]*SumFn, level int, focus str
 					_, bB := sf.inst(pb, sk)
 					out = append(out, fmt.Sprintf("(declare-const %s Int)", sk))
 					out = append(out, fmt.Sprintf("(assert (=> (=> (and (<= %s %s) (< %s %s)) (= %s %s)) (= %s %s)))", loA, sk, sk, n, bA, bB, FA, FB))
+					if level >= 3 {
+						// PW (same function, different parameters): pointwise <= gives <= of the sums, both directions
+						for dir := 0; dir < 2; dir++ {
+							pX, pY, FX, FY := pa, pb, FA, FB
+							if dir == 1 {
+								pX, pY, FX, FY = pb, pa, FB, FA
+							}
+							nsk++
+							skp := fmt.Sprintf("sumsk!%d", nsk)
+							_, bX := sf.inst(pX, skp)
+							_, bY := sf.inst(pY, skp)
+							out = append(out, fmt.Sprintf("(declare-const %s Int)", skp))
+							pwl := fmt.Sprintf("(assert (=> (=> (and (<= %s %s) (< %s %s)) (<= %s %s)) (<= %s %s)))", loA, skp, skp, n, bX, bY, FX, FY)
+							out = append(out, pwl)
+							pwLines = append(pwLines, [2]string{bX, bY})
+						}
+					}
 					for _, kIdx := range cs {
 						for _, pos := range []string{kIdx, "(- " + kIdx + " 1)"} {
 							nsk++
@@ -782,11 +834,12 @@ func sumRelationLemmas(text string, sums map[string]*SumFn, level int, focus str
 			}
 		}
 	}
-	if level >= 3 && len(all) <= 24 {
+	crossPairs := 0
+	if level >= 3 && (len(all) <= 24 || focus != "") {
 		for i := 0; i < len(all); i++ {
 			for j := i + 1; j < len(all); j++ {
 				A, B := all[i], all[j]
-				if A.sf == B.sf {
+				if A.sf == B.sf || crossPairs >= 24 {
 					continue
 				}
 				if !inFocus(A.sf.Name, A.args) && !inFocus(B.sf.Name, B.args) {
@@ -801,6 +854,7 @@ func sumRelationLemmas(text string, sums map[string]*SumFn, level int, focus str
 				if A.args[len(A.args)-1] != B.args[len(B.args)-1] {
 					continue // sums over different ranges are not related pointwise
 				}
+				crossPairs++
 				ns := []string{A.args[len(A.args)-1]}
 				for _, n := range ns {
 					nsk++
@@ -843,31 +897,81 @@ func sumRelationLemmas(text string, sums map[string]*SumFn, level int, focus str
 			}
 		}
 	}
-	// second round: sum applications that occur only inside the lemma instances above (an inner sum at a lemma's own
-	// skolem index) get their NONNEG instance, so that "every term is non-negative" can be established for nested sums
+	// further rounds: sum applications that occur only inside the lemma instances above (an inner sum at a lemma's own
+	// skolem index) get their NONNEG instance and, between two of them that differ in parameters only, the PW instances;
+	// this lets "every term is non-negative" and "pointwise <=" be established through nested sums (three levels)
 	if level >= 2 {
-		lemText := strings.Join(out, "\n")
+		seenAll := map[string]bool{}
 		for _, k := range names {
-			sf := sums[k]
-			seen := map[string]bool{}
-			for _, a := range sexpArgs(text, sf.Name) {
-				seen[strings.Join(a, " ")] = true
+			for _, a := range sexpArgs(text, sums[k].Name) {
+				seenAll[sums[k].Name+" "+strings.Join(a, " ")] = true
 			}
-			cnt := 0
-			for _, a := range sexpArgs(lemText, sf.Name) {
-				key := strings.Join(a, " ")
-				if len(a) != len(sf.PSorts)+1 || hasBoundArg(a) || seen[key] || cnt >= 24 {
+		}
+		// NONNEG for the sums that occur only inside lemma instances
+		scanFrom := 0
+		for round := 0; round < 3; round++ {
+			lemText := strings.Join(out[scanFrom:], "\n")
+			scanFrom = len(out)
+			added := 0
+			for _, k := range names {
+				sf := sums[k]
+				if !strings.Contains(lemText, sf.Name) {
 					continue
 				}
-				seen[key] = true
-				cnt++
-				pa, n := a[:len(a)-1], a[len(a)-1]
-				lo, _ := sf.inst(pa, "0")
-				nsk++
-				sk := fmt.Sprintf("sumsk!%d", nsk)
-				_, bsk := sf.inst(pa, sk)
-				out = append(out, fmt.Sprintf("(declare-const %s Int)", sk))
-				out = append(out, fmt.Sprintf("(assert (=> (=> (and (<= %s %s) (< %s %s)) (>= %s 0)) (>= %s 0)))", lo, sk, sk, n, bsk, sApp(sf.Name, a...)))
+				for _, a := range sexpArgs(lemText, sf.Name) {
+					key := sf.Name + " " + strings.Join(a, " ")
+					if len(a) != len(sf.PSorts)+1 || hasBoundArg(a) || seenAll[key] || added >= 60 {
+						continue
+					}
+					seenAll[key] = true
+					pa, n := a[:len(a)-1], a[len(a)-1]
+					lo, _ := sf.inst(pa, "0")
+					nsk++
+					sk := fmt.Sprintf("sumsk!%d", nsk)
+					_, bsk := sf.inst(pa, sk)
+					out = append(out, fmt.Sprintf("(declare-const %s Int)", sk))
+					out = append(out, fmt.Sprintf("(assert (=> (=> (and (<= %s %s) (< %s %s)) (>= %s 0)) (>= %s 0)))", lo, sk, sk, n, bsk, sApp(sf.Name, a...)))
+					added++
+				}
+			}
+			// nested PW: the sums inside the two bodies compared by a PW instance are compared in the same direction
+			var next [][2]string
+			emitted := map[string]bool{}
+			for _, pl := range pwLines {
+				if level < 3 || len(next) >= 16 {
+					break
+				}
+				for _, k := range names {
+					sf := sums[k]
+					la, lb := sexpArgs(pl[0], sf.Name), sexpArgs(pl[1], sf.Name)
+					for _, A := range la {
+						for _, B := range lb {
+							if len(A) != len(sf.PSorts)+1 || len(B) != len(A) || hasBoundArg(A) || hasBoundArg(B) || A[len(A)-1] != B[len(B)-1] {
+								continue
+							}
+							key := strings.Join(A, " ") + "<=" + strings.Join(B, " ")
+							if emitted[key] || strings.Join(A, " ") == strings.Join(B, " ") {
+								continue
+							}
+							emitted[key] = true
+							n := A[len(A)-1]
+							pa, pb := A[:len(A)-1], B[:len(B)-1]
+							loA, _ := sf.inst(pa, "0")
+							nsk++
+							skp := fmt.Sprintf("sumsk!%d", nsk)
+							_, bX := sf.inst(pa, skp)
+							_, bY := sf.inst(pb, skp)
+							out = append(out, fmt.Sprintf("(declare-const %s Int)", skp))
+							out = append(out, fmt.Sprintf("(assert (=> (=> (and (<= %s %s) (< %s %s)) (<= %s %s)) (<= %s %s)))", loA, skp, skp, n, bX, bY, sApp(sf.Name, A...), sApp(sf.Name, B...)))
+							next = append(next, [2]string{bX, bY})
+							added++
+						}
+					}
+				}
+			}
+			pwLines = next
+			if added == 0 {
+				break
 			}
 		}
 	}
@@ -1092,9 +1196,15 @@ func declaredSort(name, text string) (string, bool) {
 // A >= 0 and B > 0 ==> 0 <= (div A B) <= A (the solvers' non-linear engines do not always find the sign in time).
 func divSignInstances(text string) []string {
 	seen := map[string]bool{}
+	nums := map[string][]string{}
 	var out []string
-	for _, a := range sexpArgs(text, "div") {
-		if len(a) != 2 || hasBoundArg(a) || len(out) >= 40 {
+	divs := sexpArgs(text, "div")
+	// quotients at lemma skolem indices first: they are the ones the nested pointwise lemmas need
+	sort.SliceStable(divs, func(i, j int) bool {
+		return strings.Contains(strings.Join(divs[i], " "), "sumsk!") && !strings.Contains(strings.Join(divs[j], " "), "sumsk!")
+	})
+	for _, a := range divs {
+		if len(a) != 2 || hasBoundArg(a) || len(out) >= 240 {
 			continue
 		}
 		if _, lit := smallLit(a[1]); lit || a[1] == "S" {
@@ -1106,6 +1216,30 @@ func divSignInstances(text string) []string {
 		}
 		seen[key] = true
 		out = append(out, fmt.Sprintf("(assert (=> (and (>= %s 0) (> %s 0)) (and (>= (div %s %s) 0) (<= (div %s %s) %s))))", a[0], a[1], a[0], a[1], a[0], a[1], a[0]))
+		nums[a[0]] = append(nums[a[0]], a[1])
+	}
+	// the same non-negative dividend over two positive divisors: the larger divisor gives the smaller quotient
+	np := 0
+	var numKeys []string
+	for num := range nums {
+		numKeys = append(numKeys, num)
+	}
+	sort.SliceStable(numKeys, func(i, j int) bool {
+		ci, cj := strings.Contains(numKeys[i], "sumsk!"), strings.Contains(numKeys[j], "sumsk!")
+		if ci != cj {
+			return ci
+		}
+		return numKeys[i] < numKeys[j]
+	})
+	for _, num := range numKeys {
+		ds := nums[num]
+		for x := 0; x < len(ds); x++ {
+			for y := x + 1; y < len(ds) && np < 120; y++ {
+				np++
+				out = append(out, fmt.Sprintf("(assert (=> (and (>= %s 0) (> %s 0) (<= %s %s)) (<= (div %s %s) (div %s %s))))", num, ds[x], ds[x], ds[y], num, ds[y], num, ds[x]))
+				out = append(out, fmt.Sprintf("(assert (=> (and (>= %s 0) (> %s 0) (<= %s %s)) (<= (div %s %s) (div %s %s))))", num, ds[y], ds[y], ds[x], num, ds[x], num, ds[y]))
+			}
+		}
 	}
 	return out
 }
